@@ -72,9 +72,9 @@ Scan(q, i, cur, inw, ws) ==
 Unquote(q) == Scan(q, 1, <<>>, FALSE, <<>>)
 
 -----------------------------------------------------------------------------
-Strs == UNION { [1..n -> Alphabet] : n \in 0..MaxLen }
-InPart(s) == IF s = <<>> THEN 256 \in First ELSE s[1] \in First
-Init == str \in { s \in Strs : InPart(s) } /\ out = [i |-> str, q |-> Quote(str)]
+StrsUpTo(k) == UNION { [1..n -> Alphabet] : n \in 0..k }
+Part == (IF 256 \in First THEN {<<>>} ELSE {}) \cup { <<a>> \o t : a \in First \ {256}, t \in StrsUpTo(MaxLen - 1) }   \* partition on the first byte (256 = the empty string)
+Init == str \in Part /\ out = [i |-> str, q |-> Quote(str)]
 Next == FALSE /\ UNCHANGED <<str, out>>
 Emit == PrintT(<<"CASE", ToJson(out)>>)
 
